@@ -120,6 +120,8 @@ func (s *standardJT808DataHandle) OnPackageProgressEvent(progress *PackageProgre
 	case consts.T1212FileUploadComplete:
 		name := s.T0x1212.FileName
 		if v, ok := progress.Record[name]; ok {
+			// 0x1212可能在这个文件的任何数据包之前到达 这时还没有当前包
+			progress.ExtensionFields.CurrentPackage = v
 			s.T0x1212.P0x9212RetransmitPacketList = v.StatisticalMissSegments()
 			if len(s.T0x1212.P0x9212RetransmitPacketList) > 0 {
 				progress.ProgressStage = ProgressStageSupplementary
